@@ -1684,19 +1684,38 @@ class SoftAbsRegularizedPositiveDefiniteMatrix(
 
     def softabs(self, x: NDArray) -> NDArray:
         """Smooth approximation to absolute function."""
-        return x / np.tanh(x * self._softabs_coeff)
+        # x / tanh(coeff * x) has a removable singularity at x = 0 with limit 1 / coeff:
+        # use series expansion in y = coeff * x for small |y| to avoid 0 / 0 = NaN
+        y = self._softabs_coeff * x
+        is_small = abs(y) < 1e-3
+        x = np.where(is_small, 1.0, x)
+        return np.where(
+            is_small,
+            (1.0 + y**2 / 3.0 - y**4 / 45.0) / self._softabs_coeff,
+            x / np.tanh(x * self._softabs_coeff),
+        )
 
     def grad_softabs(self, x: NDArray) -> NDArray:
         """Derivative of smooth approximation to absolute function."""
-        return (
+        # Difference of two terms of magnitude 1 / |y| with y = coeff * x cancels
+        # catastrophically (and is inf - NaN at x = 0) for small |y|: use series expansion
+        y = self._softabs_coeff * x
+        is_small = abs(y) < 1e-3
+        x = np.where(is_small, 1.0, x)
+        return np.where(
+            is_small,
+            2.0 * y / 3.0 - 4.0 * y**3 / 45.0,
             1.0 / np.tanh(self._softabs_coeff * x)
-            - self._softabs_coeff * x / np.sinh(self._softabs_coeff * x) ** 2
+            - self._softabs_coeff * x / np.sinh(self._softabs_coeff * x) ** 2,
         )
 
     @property
     def grad_log_abs_det(self) -> NDArray:
         grad_eigval = self.grad_softabs(self.unreg_eigval) / self.eigval
-        return EigendecomposedSymmetricMatrix(self.eigvec, grad_eigval).array
+        # Entries of grad_eigval are zero for zero eigenvalues of the unregularized array so
+        # directly form eigvec @ diag(grad_eigval) @ eigvec.T rather than constructing a
+        # matrix object (which requires non-zero eigenvalues)
+        return self.eigvec @ (grad_eigval[:, None] * self.eigvec.T.array)
 
     def grad_quadratic_form_inv(self, vector: NDArray) -> NDArray:
         num_j_mtx = self.eigval[:, None] - self.eigval[None, :]
